@@ -613,8 +613,37 @@ def c10(v):
     return None
 
 
+def delay_flow(v):
+    """the one delay of a granted retry: what the retry events report, what the sleep handler and before_sleep are shown and
+    what the sleeper receives are the same number, and a SLEEP decision is followed by exactly one sleeper call.  This clause of
+    C05 / C14 / C16 does not depend on where time passes, so it is also applied to scripts whose hooks take time (for which
+    there is no model)."""
+    for a, seg in enumerate(v.seg):
+        announced = None      # (source, delay)
+        sleeps = 0
+        for e in seg:
+            if e[0] in ("M", "L") and e[1] == "retry":
+                d, src = e[3], f"the retry event of the {'metric' if e[0] == 'M' else 'log'} hook"
+            elif e[0] == "H":
+                d, src = e[4], "the sleep handler"
+            elif e[0] == "BS":
+                d, src = e[3], "before_sleep"
+            elif e[0] == "SL":
+                d, src = e[2], "the sleeper"
+                sleeps += 1
+            else:
+                continue
+            if announced is not None and d != announced[1]:
+                return f"attempt {a}: {announced[0]} saw a delay of {announced[1]} ticks, {src} {d}"
+            if announced is None:
+                announced = (src, d)
+        if sleeps > 1:
+            return f"attempt {a}: {sleeps} sleeper calls for one granted retry"
+    return None
+
+
 ORACLES = {"C01": c01, "C02": c02, "C03": c03, "C04": c04, "C05": c05, "C11": c11, "C13": c13, "C14": c14,
-           "C16": c16, "C10": c10}
+           "C16": c16, "C10": c10, "DELAYFLOW": delay_flow}
 
 
 def views(seq, obs):
